@@ -347,6 +347,8 @@ def run(ctx: Ctx) -> None:
     rng = ctx.rng
     cases = [dict(c, _kind="directed") for c in directed_cases()]
     for _ in range(ctx.n(110, 1500)):
+        if ctx.out_of_time():
+            break
         mal = rng.random() < 0.15
         c = gen_circuit(rng, ctx.n(4, 5), 8, ctx.n(2, 3), mal)
         c["_kind"] = "malformed" if mal else "random"
